@@ -55,13 +55,13 @@ def obsOf (s : St) (o : Out) : EvObs :=
 def runObs (c : Cfg) : St → List Ev → St × List EvObs
   | s, [] => (s, [])
   | s, e :: es =>
-    let (s1, o) := step c s e
-    let (s2, os) := runObs c s1 es
-    (s2, obsOf s1 o :: os)
+    let r1 := step c s e
+    let r2 := runObs c r1.1 es
+    (r2.1, obsOf r1.1 r1.2 :: r2.2)
 
 def modelObs (c : Cfg) (pre : Nat) (evs : List Ev) : Obs :=
-  let (s, os) := runObs c (init c pre) evs
-  { evs := os, img := s.image }
+  let r := runObs c (init c pre) evs
+  { evs := r.2, img := r.1.image }
 
 /-! ### helpers over a case and an observation -/
 
@@ -196,37 +196,38 @@ def freshVoters (c : Cfg) (evs : List Ev) (f e rb : Nat) : List Nat :=
     | .ack p _ r => if r > rb && p ≥ 2 && p ≤ c.voters then some p else none
     | _ => none).eraseDups
 
+/-- the leadership clause for a read answered at event `e` that was accepted by the flush at event `f` -/
+def leadershipOk (c : Cfg) (pre : Nat) (evs : List Ev) (o : Obs) (e f : Nat) : Bool :=
+  c.single || (evAt o e).leaseValid ||
+  decide ((freshVoters c evs f e (roundsBefore c pre evs f)).length + 1 ≥ c.voters / 2 + 1)
+
+/-- judgement of one response (only values returned to linearizable reads on a leader are judged) -/
+def judgeRead (c : Cfg) (pre : Nat) (evs : List Ev) (o : Obs) (t : Nat × Nat × Resp) : Option String :=
+  let ids := issuedIds c.leader evs 0 false
+  match t.2.2 with
+  | .val _ a =>
+    if !(linReadIds evs ids).contains t.2.1 || !c.leader then none
+    else
+      match flushEventOf evs ids t.2.1 with
+      | none => some "read-answered-before-flush"
+      | some f =>
+        let pushEv := ((ids.zipIdx.find? fun (x, _) => x == some t.2.1).map (·.2)).getD 0
+        let commitAtAccept := if f == 0 then pre else (evAt o (f - 1)).commit
+        let ackedBefore := (allResps o).filter fun (e', id', r') =>
+          e' < pushEv && (writeIds evs ids).contains id' && (r' == .ok || r' == .casFail)
+        if a < commitAtAccept then some "read-misses-committed"
+        else if ackedBefore.any fun (_, id', _) => match ownIdx o.img.log id' with | some i => a < i | none => false
+        then some "read-misses-acknowledged-write"
+        else if leadershipOk c pre evs o t.1 f then none
+        else some "f11-read-served-without-fresh-quorum"
+  | _ => none
+
 /-- C11 monitor. For every linearizable read answered with a value at event `e` (accepted at flush `f`):
     (state) the applied index it was read at covers the commit index at accept time and the own index of every
     write answered `ok`/`casFail` before the read was pushed;
     (leadership) single voter, or lease valid when answered (C12's domain), or a majority of voters (self
     included) acknowledged a round that started after the read was accepted. -/
 def monC11 (c : Cfg) (pre : Nat) (evs : List Ev) (o : Obs) : Option String :=
-  let ids := issuedIds c.leader evs 0 false
-  let lin := linReadIds evs ids
-  let ws := writeIds evs ids
-  let rs := allResps o
-  let judge : (Nat × Nat × Resp) → Option String := fun (e, id, r) =>
-    match r with
-    | .val _ a =>
-      if !lin.contains id || !c.leader then none
-      else
-        match flushEventOf evs ids id with
-        | none => some "read-answered-before-flush"
-        | some f =>
-          let pushEv := ((ids.zipIdx.find? fun (x, _) => x == some id).map (·.2)).getD 0
-          let commitAtAccept := if f == 0 then pre else (evAt o (f - 1)).commit
-          let ackedBefore := rs.filter fun (e', id', r') =>
-            e' < pushEv && ws.contains id' && (r' == .ok || r' == .casFail)
-          if a < commitAtAccept then some "read-misses-committed"
-          else if ackedBefore.any fun (_, id', _) => match ownIdx o.img.log id' with | some i => a < i | none => false
-          then some "read-misses-acknowledged-write"
-          else if c.single || (evAt o e).leaseValid then none
-          else
-            let fresh := freshVoters c evs f e (roundsBefore c pre evs f)
-            if fresh.length + 1 ≥ c.voters / 2 + 1 then none
-            else some "f11-read-served-without-fresh-quorum"
-    | _ => none
-  (rs.filterMap judge).head?
+  ((allResps o).filterMap (judgeRead c pre evs o)).head?
 
 end DEngine.ClientQ
